@@ -135,7 +135,8 @@ class Real(Type):
         elif data == 0.0:
             data = '0'
         else:
-            data = '{}E0'.format(data)
+            mantissa, _, exponent = '{}'.format(data).partition('e')
+            data = '{}E{}'.format(mantissa, int(exponent or 0))
 
         return data
 
